@@ -14,6 +14,12 @@ ENGINES = [
 NOTES = "Property-based testing and fuzzing only. See DESIGN.md. Known findings: /verif/known_findings.json."
 NOT_APPLICABLE = {}
 CHECKS = {
+    "C16": {
+        "text": "Generated programs in which every support-import trigger (sqrt, nullable/union/tuple/callable/Any types, type aliases, interfaces) occurs at drawn positions with user imports, plus API-shaped and CoreGen programs, both annotate settings; the emitted module is analysed statically (ast + symtable): no unbound global read, each mentioned support name imported exactly once before first use, user imports reproduced.",
+        "design_ref": "DESIGN.md section 6 C16",
+        "note": "symtable/ast of CPython 3.11 decide scoping; reads in annotations count; nothing is executed.",
+        "technique": "property-based testing: generated trigger x position programs with a static free-name / import oracle (Hypothesis)",
+    },
     "C17": {
         "text": "Generated API-shaped programs (functions with defaults/varargs, classes with arguments, parents with arguments, several parents, interfaces, methods, operator definitions, members and definitions in random order), both annotate settings; the expected Python API is computed from the model and compared with FunctionDef/ClassDef nodes of the emitted module.",
         "design_ref": "DESIGN.md section 6 C17",
